@@ -54,6 +54,53 @@ CHECKS["C19"] = (
     "Trusts dask's concatenation order; GridScan/LineScan block geometry is decided under C20.",
 )
 
+CHECKS["C07"] = (
+    "path counting over the exit-plane arms of multislice_and_detect (exactly one counter increment per exit plane, "
+    "index computed -> update -> increment order), loop-carried reaching definitions, term checks of "
+    "_validate_exit_planes and exit_thicknesses, three-site agreement on the entrance-plane convention",
+    "Decides the bookkeeping clause of thickness series: every exit plane (including the entrance plane) gets its own "
+    "slot, in order, per configuration; the last exit plane is the last slice; the thickness axis is the cumulative "
+    "thickness with the entrance plane at 0.",
+    "Equality with truncated simulations is numerical and not decided.",
+)
+
+CHECKS["C29"] = (
+    "operator-table rules (reflected-dunder aliasing, dunder-name dispatch), CFG dominance of the base-axis guard, "
+    "executed-constructor-chain analysis, lock-step comparison of array-op axis expressions with metadata edits, "
+    "lazy/eager twin comparator",
+    "Decides that no structural operation can edit the array along one axis and the metadata along another, that "
+    "base axes cannot be reduced/indexed/squeezed, that every array object validates one metadata entry per "
+    "dimension at construction, and that arithmetic dunders dispatch to the operator they name.",
+    "Trusts numpy/dask semantics of stack/concatenate/moveaxis/squeeze.",
+)
+
+CHECKS["C21"] = (
+    "straight-line term evaluation of Aberrations._evaluate_from_angular_grid per guard arm into the polynomial "
+    "normal form; symbol-name <-> (n, m) naming rule; guard-tuple cover; alias-table injectivity; parameter binding",
+    "Decides that every polar coefficient Cnm enters chi exactly once as Cnm*alpha^(n+1)/(n+1)*cos(m(phi-phinm)), "
+    "scaled by 2pi/lambda inside complex_exponential(-.), for all 25 symbols; that guards cover what they guard; "
+    "defocus = -C10 both ways; aliases address the same coefficients; same rule for the envelope derivative tables.",
+    "Trusts complex_exponential(x) = exp(ix) and _unpack_distributions' argument order.",
+)
+
+CHECKS["C22"] = (
+    "harmonic-component abstract domain: each Cartesian component folded to C*(p cos m phi + q sin m phi), each "
+    "inverse to sigma*sqrt(X^2+Y^2), tau*arctan2(U,V)/m; round-trip identity checked per pair; key-set agreement",
+    "Decides chi-equivalence of polar->cartesian->polar for all five coefficient pairs and two scalars, for every "
+    "coefficient value and angle.",
+    "Constant folding of the C34b prefactor uses float arithmetic with tolerance 1e-9.",
+)
+
+CHECKS["C23"] = (
+    "interval / sign abstract interpretation with flow-sensitive names; term normal form of the soft-aperture edge; "
+    "zero-at-origin analysis of envelope exponents; path enumeration of the CTF composition",
+    "Decides that apertures lie in [0,1] with the stated half-pixel edge, envelopes lie in (0,1] for non-negative "
+    "spread and equal 1 at alpha=0, and that every CTF path without a post-filter is a product of unit-modulus, "
+    "<=1 and aperture factors.",
+    "Assumes angular_spread >= 0 (the property's hypothesis) and alpha >= 0 in radians; Wiener/flip-phase "
+    "post-filter paths are not decided.",
+)
+
 NOT_APPLICABLE = {
     "C25": "consistency of each parametrization's real- and reciprocal-space forms is an analytic Fourier-"
            "transform identity between tabulated-coefficient kernels plus monotonicity over table data; no "
